@@ -12,6 +12,8 @@ CLAIMED = {
              note="degree<=4, length<=4 quick (5,5 thorough); absent namespaces and repeated identical terms outside the claim"),
  'C01': dict(design='C01', text="The real in-process Experiment.run is compared with an in-process emulation of worker execution assembled only from coba's own stages (MakeTasks, ChunkTasks with a z3-integer maxtasksperchunk, ProcessFilter/ProcessTasks on pickled chunks in a reset context, TransactionEncode/Decode/Result) under solver-enumerated arrival orders of worker outputs, for 9 programs (shared chunk/cache prefixes, shuffle fan-out, stateful/PMF/kwargs learners, SequentialCB/RejectionCB/custom evaluators, tuple lists with shared objects) and two seeds; real spawn-based multi-process runs must equal both.",
              note="finite configuration/schedule enumeration (no value reasoning); real OS schedules only through 2 (quick) / 10 (thorough) real runs", technique="bounded symbolic execution (symx/z3) used to enumerate the configuration and arrival-order space exhaustively over the real pipeline stages; translation validation of the emulation against real multi-process runs"),
+ 'C03': dict(design='C03', text="Experiments whose triple list (<=3 triples over 2 environments x 2 learner objects x 2 evaluators, indices as z3 integers: every sharing pattern and order), learner kind, fault position (environment params/read, learner predict/learn at call j, evaluator) and execution mode (in-process; emulated workers over plain or chunked environments with maxtasksperchunk 0..2) are solver-enumerated: each triple's rows must equal those of the same triple run alone on a fresh learner, failing triples contribute no rows and are reported in the log, shared user learner objects stay untouched.",
+             note="finite enumeration through z3 integers, no value reasoning; worker processes emulated as in C01", technique="bounded symbolic execution (symx/z3) enumerating sharing patterns, fault positions and configurations exhaustively over the real experiment pipeline; differential oracle against single-triple runs"),
  'C05': dict(design='C05', text="CobaRandom executed from an arbitrary symbolic generator state: the LCG step is proved a bijection on all 2^30 states (bit-vectors), uniforms are exact dyadic reals, randint/randints/shuffle/choice/choicew/gauss contracts and instance/module/stdlib interleavings are z3 queries over all states or over an arbitrary grid-valued uniform stream; random(min,max) is decided bit-exactly in QF_FP by a z3||cvc5 portfolio.",
              note="stubs: int() in coba.random identity on proxies; libm by contract; arbitrary-stream stub justified by the bijection obligation; seed=None and |bounds|>2^20 outside", engine='symx + z3||cvc5 FP lemmas'),
  'C06': dict(design='C06', text="The real SequentialCB.evaluate (SafeLearner, Finalize, BatchSafe, OpeRewards IPS, Unbatch, reward classes) runs on environments with symbolic contexts, rewards, logged rewards/probabilities and extra fields against a recording learner double whose picks are solver-enumerated and whose probabilities are symbolic; the full call trace and every yielded row are compared with the statement for all learn x eval x record-set x shape combinations, incl. rejection of environments lacking required fields, varying action sets and PMF-answering learners.",
